@@ -508,6 +508,32 @@ theorem ticket_once (h : List HOp) (hd : (issuedRaws h).Nodup) : (runHist [] [] 
 example : (runHist [] [] [.issue "a" (List.replicate 144 7) 1000, .connect "a" 2000, .connect "a" 3000,
     .restart 4000, .connect "a" 5000]).2 = [List.replicate 144 7] := by decide +kernel
 
+/-- **At most one handshake per ticket, even when checkpoints fail.** The store is the in-memory
+map plus the ticket file; every `serialize` (at the redeeming connect, at the storing of a new
+ticket) may succeed or fail, a failure leaving the file as it was; a restart reloads the map from
+the file. For EVERY history of connects, issues (each with its own write outcome) and restarts in
+which the server never issues the same blob twice, no blob is presented in two handshakes. The
+point of the code that carries it: `getTicket` *returns* the checkpoint error, so a ticket whose
+removal did not reach the disk is not presented (`checkpoint_failure_does_not_present`). -/
+theorem ticket_once_with_write_faults (h : List HOpF) (hd : (issuedRawsF h).Nodup) :
+    (runHistF ⟨[], none⟩ [] h).2.Nodup :=
+  runHistF_nodup h ⟨[], none⟩ [] ⟨Good.nil _ _, Good.nil _ _, List.nodup_nil, fun _ hr => by simp at hr⟩ hd
+
+/-- **A failed checkpoint presents nothing.** Whenever a ticket is held for the bridge and the
+checkpoint after its removal fails, the connection attempt ends with the error (no ticket flight,
+no UniformDH flight), the ticket is gone from the map and the file is untouched. -/
+theorem checkpoint_failure_does_not_present (d : Disk) (addr : String) (now : Int) (t : Ticket)
+    (h : d.mem.lookup addr = some t) :
+    (d.connect addr now false).2 = .error ∧ (d.connect addr now false).1.mem = d.mem.erase addr ∧
+    (d.connect addr now false).1.file = d.file := by
+  simp [Disk.connect, h, Disk.checkpoint]
+
+/-- the scenario: ticket stored, checkpoint fails at the redeeming connect (nothing presented), restart
+    (the ticket is back from the file), connect (presented, once), restart, connect (UniformDH) -/
+example : (runHistF ⟨[], none⟩ [] [.issue "a" (List.replicate 144 7) 1000 true, .connect "a" 2000 false,
+    .restart 3000, .connect "a" 4000 true, .restart 5000, .connect "a" 6000 true]).2 = [List.replicate 144 7] := by
+  decide +kernel
+
 /-- **An expired ticket falls back to UniformDH** (and is removed). -/
 theorem expired_falls_back (s : Store) (addr : String) (now : Int) (t : Ticket)
     (h : s.lookup addr = some t) (hexp : t.issuedAt + (ticketLifetime : Int) ≤ now) :
